@@ -32,6 +32,12 @@ Definition comet_apply (vs : gmap Z Z) (upd : list (Z * Z)) : gmap Z Z + Z :=
         else inl vs2
   end.
 
+(* the same updates applied one by one (what the set is when all keys are distinct; proofs/InvComet.v shows
+   comet_apply returns exactly this whenever it accepts) *)
+Definition apply_update (m : gmap Z Z) (u : Z * Z) : gmap Z Z :=
+  if snd u =? 0 then delete (fst u) m else <[fst u := snd u]> m.
+Definition apply_updates (m : gmap Z Z) (upd : list (Z * Z)) : gmap Z Z := fold_left apply_update upd m.
+
 (* ---- messages and histories ---- *)
 Inductive l1msg :=
 | MSetPower (sender val power : Z) (unsafe : bool)
@@ -232,7 +238,7 @@ Definition init_world (g : genesis) : world :=
   | EBHalt e => {| w_chain := c0; w_comet := {| c_prev := None; c_cur := ∅; c_next := ∅ |}; w_halted := Some (HEndBlock e) |}
   | EBOk c1 upd =>
     let c2 := with_poa c1 {| pending := []; cached_power := last_total (stk c1); abs_changed := 0 |} in
-    let set0 : gmap Z Z := list_to_map upd in
+    let set0 : gmap Z Z := apply_updates ∅ upd in
     {| w_chain := c2; w_comet := {| c_prev := None; c_cur := set0; c_next := set0 |}; w_halted := None |}
   end.
 
